@@ -1,13 +1,15 @@
 //! C20: front matter is carried verbatim and never leaks into the document.
-//! K: the real `split_off_front_matter` (hook) vs the Lean model `splitOffFrontMatter`, exhaustively
-//!    over short strings on {delimiter bytes, other, LF, CR, BOM} for three delimiters and on random
-//!    delimiters/bodies/line endings; the real parser's FrontMatter literal and tapped process_line
-//!    calls (line, offset, line number) vs the model's `parseDoc`.
-//! S: on the real code, against an independent line-based reading of the statement (`ref_split`):
+//! K: the real `split_off_front_matter` (hook) vs the Lean model `splitOffFrontMatter` (the line-by-line
+//!    function of /repo commit d92265f), exhaustively over short strings on {delimiter bytes, other,
+//!    LF, CR, BOM} for three delimiters and on random delimiters/bodies/line endings; the real
+//!    parser's FrontMatter literal and tapped process_line calls (line, offset, line number) vs the
+//!    model's `parseDoc`; the model's `lines` (the vocabulary of the theorems) vs `ref_lines`.
+//! S: on the real code, against an independent line-based reading of the statement (`ref_split`;
+//!    lines end with LF, CRLF or CR):
 //!    recognised exactly; CommonMark = front matter verbatim + rest on its own; HTML/XML of the
 //!    document = HTML/XML of the rest on its own (sourcepos lines shifted); text that merely
 //!    resembles front matter renders as with the option off.
-use crate::c08::{fmt_preludes, real_tap, BOM};
+use crate::c08::{fmt_lines, fmt_preludes, real_tap, BOM};
 use crate::gen::{mixed_doc, Corpus};
 use crate::model::{Batch, Model};
 use crate::opts::Opts;
@@ -44,6 +46,20 @@ fn push_split<'a>(bt: &mut Batch<'a>, rep: &mut Report, d: &str, s: &str) {
             });
         }
     }
+}
+
+/// The vocabulary of the Lean statements: the model's `lines` vs the oracle's `ref_lines`.
+fn push_lines<'a>(bt: &mut Batch<'a>, s: &str) {
+    let input = format!("lines {}", hex(s.as_bytes()));
+    let ls = ref_lines(s);
+    let v: Vec<&[u8]> = ls.iter().map(|l| &s.as_bytes()[l.start..l.content_end]).collect();
+    let want = fmt_lines(&v);
+    bt.push(format!("fmlines {}", hex(s.as_bytes())), move |resp, rep| {
+        rep.k_evals += 1;
+        if resp != want {
+            rep.disagree("lines-model", input, format!("oracle lines = {} but model lines = {}", want, resp));
+        }
+    });
 }
 
 struct Parsed {
@@ -112,79 +128,96 @@ fn push_doc<'a>(bt: &mut Batch<'a>, rep: &mut Report, d: &str, s: &str) {
 
 // ------------------------------------------------------------------ the statement, read line by line
 
-/// (content end, next line start, terminated?) of the line starting at `pos`; terminators LF, CRLF.
-fn line_at(s: &str, pos: usize) -> (usize, usize, bool) {
-    match s[pos..].find('\n') {
-        Some(i) => {
-            let i = pos + i;
-            let ce = if i > pos && s.as_bytes()[i - 1] == b'\r' { i - 1 } else { i };
-            (ce, i + 1, true)
-        }
-        None => (s.len(), s.len(), false),
+/// One line of a text: `start..content_end` is its content, `content_end..end` its terminator
+/// (LF, CRLF or a lone CR; empty only for a last line that the end of the text ends).
+#[derive(Debug, Clone, Copy, PartialEq, Eq)]
+pub struct Line {
+    pub start: usize,
+    pub content_end: usize,
+    pub end: usize,
+}
+
+impl Line {
+    fn terminated(&self) -> bool {
+        self.end > self.content_end
     }
+    fn lone_cr(&self, s: &str) -> bool {
+        &s[self.content_end..self.end] == "\r"
+    }
+}
+
+/// The lines of a text, read byte by byte with one flag "the previous byte was a CR that ended a
+/// line" (the shape of the C08 specification `splitLines`; deliberately not the shape of the code
+/// under test, which searches for the next line-end byte and then measures the line ending).
+pub fn ref_lines(s: &str) -> Vec<Line> {
+    let mut out: Vec<Line> = vec![];
+    let mut start = 0usize;
+    let mut after_cr = false;
+    for (i, b) in s.bytes().enumerate() {
+        if b == b'\n' && after_cr {
+            // the LF of a CRLF: it belongs to the terminator of the line the CR ended
+            let last = out.last_mut().unwrap();
+            last.end = i + 1;
+            start = i + 1;
+            after_cr = false;
+        } else if b == b'\n' || b == b'\r' {
+            out.push(Line { start, content_end: i, end: i + 1 });
+            start = i + 1;
+            after_cr = b == b'\r';
+        } else {
+            after_cr = false;
+        }
+    }
+    if start < s.len() {
+        out.push(Line { start, content_end: s.len(), end: s.len() });
+    }
+    out
 }
 
 pub struct RefSplit {
     pub fm_end: usize,
     pub body_lines: usize,
+    /// lines of the front matter, the absorbed blank line included
+    pub fm_lines: usize,
     pub close_at_eof: bool,
-    pub close_lf: bool,
-    pub body_line_starts_with_d: bool,
+    /// some line of the front matter is ended by a CR that no LF follows
+    pub lone_cr_line: bool,
+    /// the last line of the front matter is
+    pub ends_with_lone_cr: bool,
 }
 
 /// Front matter as the statement describes it: the first line is the delimiter alone, the block
-/// runs to the next line that is the delimiter alone (ended by LF, CRLF or the end of the text),
-/// plus one directly following blank line. Offsets are into the BOM-stripped text.
+/// runs to the next line that is the delimiter alone (lines end with LF, CRLF, CR or the end of
+/// the text; an empty body is a body), plus one directly following blank line. Offsets are into
+/// the BOM-stripped text.
 pub fn ref_split(doc: &str, d: &str) -> Option<RefSplit> {
     let s = doc.strip_prefix(BOM).unwrap_or(doc);
-    let (ce, mut pos, term) = line_at(s, 0);
-    if &s[..ce] != d || !term {
+    let ls = ref_lines(s);
+    let content = |l: &Line| &s[l.start..l.content_end];
+    if ls.len() < 2 || content(&ls[0]) != d {
         return None;
     }
-    let mut body_lines = 0;
-    let mut starts = false;
-    loop {
-        if pos >= s.len() {
-            return None;
-        }
-        let (ce, next, term) = line_at(s, pos);
-        if &s[pos..ce] == d {
-            let mut fm_end = next;
-            if term && next < s.len() {
-                let (ce2, next2, term2) = line_at(s, next);
-                if ce2 == next && term2 {
-                    fm_end = next2;
-                }
-            }
-            return Some(RefSplit { fm_end, body_lines, close_at_eof: !term, close_lf: term && ce + 1 == next, body_line_starts_with_d: starts });
-        }
-        if s[pos..ce].starts_with(d) {
-            starts = true;
-        }
-        body_lines += 1;
-        pos = next;
+    let k = (1..ls.len()).find(|&k| content(&ls[k]) == d)?;
+    let mut last = k;
+    if k + 1 < ls.len() && ls[k + 1].start == ls[k + 1].content_end {
+        // a blank line (an empty line is in the list only if it has a terminator)
+        last = k + 1;
     }
+    Some(RefSplit {
+        fm_end: ls[last].end,
+        body_lines: k - 1,
+        fm_lines: last + 1,
+        close_at_eof: !ls[k].terminated(),
+        lone_cr_line: ls[..=last].iter().any(|l| l.lone_cr(s)),
+        ends_with_lone_cr: ls[last].lone_cr(s),
+    })
 }
 
-/// Syntactic class of a document on which recognition differs from `ref_split`.
-fn classify(doc: &str, d: &str) -> &'static str {
-    let s = doc.strip_prefix(BOM).unwrap_or(doc);
-    match ref_split(doc, d) {
-        Some(r) => {
-            if r.body_lines == 0 {
-                "empty-body"
-            } else if r.close_at_eof && r.body_line_starts_with_d {
-                "body-line-starts-with-delimiter-and-closing-delimiter-at-eof"
-            } else if (r.close_lf || r.close_at_eof) && s.contains(&format!("\n{}\r\n", d)) {
-                // a later line is the delimiter ended by CRLF while the closing line is ended by LF / EOF
-                "mixed-line-endings-later-crlf-delimiter"
-            } else {
-                "doc"
-            }
-        }
-        None => "doc",
-    }
-}
+// No syntactic class of documents is excepted any more: the recognition classes "empty-body",
+// "body-line-starts-with-delimiter-and-closing-delimiter-at-eof" and
+// "mixed-line-endings-later-crlf-delimiter" were repaired in /repo commit d92265f; front matter
+// lines ended by a lone CR, which that commit made reachable, in ef24343 (line count) and 65297f7
+// (CommonMark writer at the start of a line after a final CR). Every S failure has the sig "doc".
 
 fn shift_sourcepos(html: &str, k: usize) -> String {
     let key = "data-sourcepos=\"";
@@ -304,6 +337,23 @@ fn run_s_raw(rep: &mut Report, d: &str, o0: &Opts, doc: &str) {
     // 1. recognised exactly when the statement says so, not at all otherwise
     rep.s_evals += 1;
     let want_fm = rs.as_ref().map(|r| &stripped[..r.fm_end]);
+    if let Some(r) = &rs {
+        if r.body_lines == 0 {
+            rep.count("s-ref-empty-body");
+        }
+        if r.close_at_eof {
+            rep.count("s-ref-closing-delimiter-at-eof");
+        }
+        if r.lone_cr_line {
+            rep.count("s-ref-front-matter-line-ended-by-lone-cr");
+        }
+        if r.ends_with_lone_cr {
+            rep.count("s-ref-front-matter-ends-with-lone-cr");
+        }
+        if r.fm_lines == r.body_lines + 3 {
+            rep.count("s-ref-blank-line-absorbed");
+        }
+    }
     match (&want_fm, &on.fm) {
         (Some(_), Some(_)) => rep.count("s-front-matter-recognised"),
         (None, None) => rep.count("s-resembles-only"),
@@ -312,7 +362,7 @@ fn run_s_raw(rep: &mut Report, d: &str, o0: &Opts, doc: &str) {
     if want_fm != on.fm.as_deref() {
         rep.fail(
             "recognised-exactly",
-            classify(doc, d),
+            "doc",
             input.clone(),
             format!("{}: the leading block enclosed by the delimiter is {:?} but the parser took {:?}", ctx, want_fm.map(|f| show(f.as_bytes())), on.fm.as_ref().map(|f| show(f.as_bytes()))),
         );
@@ -382,8 +432,12 @@ fn run_s_raw(rep: &mut Report, d: &str, o0: &Opts, doc: &str) {
             if x_on != x_alone {
                 rep.fail("xml-rest-same", "doc", input.clone(), format!("{}: {}", ctx, diff_window(x_on.as_bytes(), x_alone.as_bytes())));
             }
-            // source lines shifted by the line count of the front matter
-            let k = fm.bytes().filter(|b| *b == b'\n').count();
+            // source lines shifted by the line count of the front matter (lines as everywhere else:
+            // ended by LF, CRLF or CR; before /repo commit ef24343 the code added the number of LF bytes)
+            let k = ref_lines(fm).len();
+            if k != fm.bytes().filter(|b| *b == b'\n').count() && !rest.is_empty() {
+                rep.count("s-front-matter-line-count-differs-from-lf-count");
+            }
             let (mut o_sp, mut off_sp) = (o.clone(), off.clone());
             o_sp.set("sourcepos", true);
             off_sp.set("sourcepos", true);
@@ -522,7 +576,7 @@ pub fn run(cfg: &Cfg, rep: &mut Report) {
     let m = Model::from_env();
     let mut rng = Rng::new(cfg.seed ^ 0xC20);
     let corpus = Corpus::load();
-    rep.rule = "K: split_off_front_matter (hook) vs the Lean model on every string of <= N symbols over {delimiter bytes, other, LF, CR, BOM} for the delimiters \"-\", \"ab\", \"---\" (exhaustive), and on generated front-matter-like documents (13 delimiters; LF/CRLF/mixed/CR endings; body lines containing/starting with the delimiter; mutations: not at start, opening/closing not alone, unterminated, EOF close, later delimiter lines, BOM) plus byte deletions; the parser's FrontMatter literal and tapped process_line calls vs the model's parseDoc. S: the same generated documents x random option vectors through parse/format_commonmark/format_html/format_xml against the line-based reading of the statement. distinct_nontrivial counts distinct (delimiter, text) pairs on which the real splitter returns Some.".into();
+    rep.rule = "K: split_off_front_matter (hook) vs the Lean model on every string of <= N symbols over {delimiter bytes, other, LF, CR, BOM} for the delimiters \"-\", \"ab\", \"---\" (exhaustive), and on generated front-matter-like documents (13 delimiters; LF/CRLF/mixed/CR endings; body lines containing/starting with the delimiter; mutations: not at start, opening/closing not alone, unterminated, EOF close, later delimiter lines, BOM) plus byte deletions; the parser's FrontMatter literal and tapped process_line calls vs the model's parseDoc; the model's lines vs the oracle's ref_lines. S: the same generated documents x random option vectors through parse/format_commonmark/format_html/format_xml against the line-based reading of the statement. distinct_nontrivial counts distinct (delimiter, text) pairs on which the real splitter returns Some.".into();
 
     // 1. K exhaustive
     let t = cfg.tier_thorough;
@@ -549,6 +603,7 @@ pub fn run(cfg: &Cfg, rep: &mut Report) {
         let mut n_doc = 0;
         for s in pending.iter().filter(|s| s.chars().count() <= maxlen - 2) {
             push_doc(&mut bt, rep, d, s);
+            push_lines(&mut bt, s);
             n_doc += 1;
             if bt.len() > 20_000 {
                 let b = std::mem::replace(&mut bt, Batch::new());
@@ -570,6 +625,7 @@ pub fn run(cfg: &Cfg, rep: &mut Report) {
         }
         push_split(&mut bt, rep, &d, &doc);
         push_doc(&mut bt, rep, &d, &doc);
+        push_lines(&mut bt, &doc);
         // a deletion somewhere
         if doc.len() > 1 {
             let chars: Vec<char> = doc.chars().collect();
@@ -630,6 +686,12 @@ pub fn replay(kind: &str, input: &str) -> Result<Option<String>, String> {
             let m = Model::from_env();
             let mut bt = Batch::new();
             push_split(&mut bt, &mut rep, &utf8(toks[1])?, &utf8(toks[2])?);
+            bt.run(&m, &mut rep);
+        }
+        Some("lines") if toks.len() == 2 => {
+            let m = Model::from_env();
+            let mut bt = Batch::new();
+            push_lines(&mut bt, &utf8(toks[1])?);
             bt.run(&m, &mut rep);
         }
         Some("doc") if toks.len() == 3 => {
